@@ -17,7 +17,8 @@ VERIF = os.path.dirname(os.path.dirname(os.path.abspath(__file__)))
 REPO = os.environ.get("VERIF_REPO", "/repo")
 SPECS = os.path.join(VERIF, "specs")
 HARNESS = os.path.join(VERIF, "harness")
-EVIDENCE = os.path.join(VERIF, "evidence")
+# a run against a scratch tree (VERIF_REPO: seeded changes) must not overwrite the evidence of the real tree
+EVIDENCE = os.path.join(VERIF, "evidence") if "VERIF_REPO" not in os.environ else os.path.join(VERIF, "out", "seeded-evidence")
 OUT = os.path.join(VERIF, "out")
 KNOWN = os.path.join(VERIF, "known_findings.txt")
 NCPU = os.cpu_count() or 4
